@@ -976,10 +976,56 @@ def fam_units(P, n, tier):
     return out
 
 
+def fam_lanes(P, n, tier):
+    """Stale working-buffer contents must never be read as argument text: command tables engineered so
+    that the 2-bit match lanes left at the start of the working buffer after the name lookup spell a
+    VALID argument (hex digits, a quoted string), followed by a request with an EMPTY or short argument."""
+    # bytes whose four 2-bit lanes are all in {0,1,2} and which are useful argument characters
+    def lanes_of(b):
+        return [(b >> (2 * j)) & 3 for j in range(4)]
+    hexch = [c for c in b'ABDEFabdef' if 3 not in lanes_of(c)]
+    out = []
+    for i in range(n):
+        kind = P.choice(['hex', 'hex', 'str'])
+        if kind == 'hex':
+            text = bytes([P.choice([c for c in hexch if lanes_of(c)[0] == 2] or hexch)] + [P.choice(hexch) for _ in range(P.choice([1, 1, 3]))])
+        else:
+            text = b'""' if P.chance(0.5) else bytes([34] + [P.choice(b'abdefABDEF') for _ in range(P.choice([1, 2]))] + [34])
+            if lanes_of(text[0])[0] not in (1, 2):
+                text = b'""'
+        lanes = [l for b in text for l in lanes_of(b)] + [0, 0, 0, 0]
+        typed = P.choice(['+S', '+Q', '#A', 'M'])
+        sc = Scn('lane%d' % i, cap=P.choice(CAPS), buf_size=P.choice([32, 48, 64]), ubuf_size=P.choice([-1, 16]),
+                 fill=P.choice([0, 0x55, 0xFF]), mutex=False)
+        cmds = []
+        first_full = None
+        for idx, l in enumerate(lanes):
+            if l == 2:
+                nm = typed
+            elif l == 1:
+                nm = typed + P.choice(['A', 'B', 'X1', 'YY'])
+            else:
+                nm = P.choice(['Z', 'ZZ', '+Z', 'K%d' % idx])
+            if kind == 'hex':
+                v = Var(BUFHEX, P.choice([2, 4, 8]), RW, init=bytes([0x11] * 8)[:8])
+                v = Var(BUFHEX, v.size, RW, init=bytes([0x11] * v.size))
+            else:
+                sz = P.choice([4, 8])
+                v = Var(BUFSTR, sz, RW, init=(b'zz' + bytes(sz))[:sz])
+            cmds.append(Cmd(nm, vars=[v], w=P.chance(0.3)))
+        sc.add_group(cmds)
+        sched(P, sc, style=P.choice(['eager', 'rand']))
+        for arg in ['', '', P.choice(['', ',', '0'])]:
+            sc.feed('AT' + typed + '=' + arg + P.choice(['\n', '\r\n']))
+            sc.drain(6000)
+        out.append(sc)
+    return out
+
+
 FAMILIES = {
     'mixed': fam_mixed, 'names': fam_names, 'num': fam_num, 'buf': fam_buf, 'cap': fam_cap, 'rc': fam_rc,
     'events': fam_events, 'hold': fam_hold, 'mutex': fam_mutex, 'lines': fam_lines, 'rt': fam_rt,
-    'wo': fam_wo, 'list': fam_list, 'bytes': fam_bytes, 'sched': fam_sched, 'units': fam_units,
+    'wo': fam_wo, 'list': fam_list, 'bytes': fam_bytes, 'sched': fam_sched, 'units': fam_units, 'lanes': fam_lanes,
 }
 
 
